@@ -2,6 +2,7 @@ import Driver.Codec
 import Driver.Topics
 import Driver.Tx
 import Driver.Util
+import Driver.Gateway
 
 open Driver
 
@@ -29,7 +30,7 @@ partial def caseLoop (h : IO.FS.Stream) (out : IO.FS.Stream) (f : String → Lis
     let k ← flush
     return (n, nout + k)
   let line := (line.dropRightWhile (fun c => c == '\n' || c == '\r'))
-  if line.startsWith ">" then
+  if line.startsWith ">" || line.startsWith "@" then
     caseLoop h out f cur (acc.push line) n nout
   else if line.startsWith "#" || line.isEmpty then
     caseLoop h out f cur acc n nout
@@ -60,6 +61,10 @@ def main (args : List String) : IO UInt32 := do
   | ["match"] =>
     let (n, k) ← loop stdin stdout (matchLine Bisquitt.specMatch) 0 0
     stdout.putStrLn s!"SUMMARY match lines={n} reports={k}"
+    return 0
+  | ["gateway"] =>
+    let (n, k) ← caseLoop stdin stdout gatewayCase none #[] 0 0
+    stdout.putStrLn s!"SUMMARY gateway cases={n} reports={k}"
     return 0
   | ["tx"] =>
     let (n, k) ← caseLoop stdin stdout txCase none #[] 0 0
